@@ -394,6 +394,11 @@ class Exec(CallsMixin, Interp):
         plain_calls = set()
         resolved = []
         for cl in calls:
+            dotted = '%s.%s' % cl if isinstance(cl, tuple) else cl
+            if dotted in self.w.externals:
+                # a module-level object of the real code mapped to a sidecar contract (signal.send, helpers)
+                resolved.append(self.w.contracts[self.w.externals[dotted]])
+                continue
             if isinstance(cl, tuple):
                 recv = self.env.get(cl[0])
                 rk = recv.kind if isinstance(recv, V) else None
@@ -541,6 +546,7 @@ class Exec(CallsMixin, Interp):
         self.check_inv(inv, ordinal, 'entry', st)
         self.havoc_for_loop(st.body, inv)
         self.assume_inv(inv)
+        self.note_loop_exit(ordinal, z3.Not(self.truth(self.eval(st.test))), st)
         if self.branch(self.truth(self.eval(st.test))):
             try:
                 self.run_ghost(inv.ghost_pre)
@@ -686,6 +692,7 @@ class Exec(CallsMixin, Interp):
         self.ghost_locals[idx] = K.vint(i)
         self.p.assume(z3.And(0 <= i, i <= n_log))
         self.assume_inv(inv)
+        self.note_loop_exit(ordinal, z3.Not(i < n_log), st)
         if self.branch(i < n_log):
             if self.branch(is_live(i)):
                 e = element(i)
@@ -702,6 +709,16 @@ class Exec(CallsMixin, Interp):
             self.check_inv(inv, ordinal, 'preserved', st)
             raise PathEnd()
         # exit: i == n
+
+    def note_loop_exit(self, ordinal, exit_cond, st):
+        """Vacuity guard: right after assuming the invariant, leaving the loop must be possible (otherwise the
+        invariant - or what was havocked for it - contradicts the loop ever ending, and everything after the loop goes
+        unexamined).  Only recorded on the first, undecided exploration of the branch."""
+        if len(self.p.taken) < len(self.p.decisions):
+            return
+        if not self.p.feasible(exit_cond) and self.p.feasible(z3.Not(exit_cond)):
+            self.p.__dict__.setdefault('dead_exits', set()).add(
+                'loop %s (line %s) cannot be left under its invariant' % (ordinal, getattr(st, 'lineno', '?')))
 
     def set_to_seq(self, s):
         """Iteration order of a set: an arbitrary (fresh, unconstrained) enumeration without repeats."""
